@@ -17,6 +17,7 @@ VARIANTS = {
     'clang-asan': dict(cc='clang++', flags=['-std=c++11', '-O1', '-fsanitize=address,undefined', '-fno-sanitize-recover=all', '-fno-sanitize=object-size'] + _G, env=ASAN_ENV),
     'clang-asan17': dict(cc='clang++', flags=['-std=c++17', '-O1', '-fsanitize=address,undefined', '-fno-sanitize-recover=all', '-fno-sanitize=object-size'] + _G, env=ASAN_ENV),
     'tsan':       dict(cc='g++', flags=['-std=c++11', '-O1', '-fsanitize=thread', '-DVF_TSAN'] + _G, env=TSAN_ENV, extra_src=['vlistshim.cpp']),
+    'clang-tsan': dict(cc='clang++', flags=['-std=c++11', '-O1', '-fsanitize=thread', '-DVF_TSAN'] + _G, env=TSAN_ENV, extra_src=['vlistshim.cpp']),
     'tsan17':     dict(cc='g++', flags=['-std=c++17', '-O1', '-fsanitize=thread', '-DVF_TSAN'] + _G, env=TSAN_ENV, extra_src=['vlistshim.cpp']),
     'O0':         dict(cc='g++', flags=['-std=c++11', '-O0'] + _G),
     'asan17-fault': dict(cc='g++', flags=['-std=c++17', '-O1', '-fsanitize=address,undefined', '-fno-sanitize-recover=all'] + _G, env=ASAN_ENV, extra_src=['vnew.cpp']),
@@ -95,6 +96,7 @@ CHECKS['C03'] = dict(
          'distinct_nontrivial = distinct lock-acquisition-order hashes (plain builds)',
     jobs=[J('drv_cblist_mt', 'plain', '', 40000, 600000, shards=8, shards_thorough=16),
           J('drv_cblist_mt', 'tsan', '', 2400, 40000, seed_offset=1, shards=8, shards_thorough=16),
+          J('drv_cblist_mt', 'clang-tsan', '', 2400, 40000, seed_offset=4, shards=8, shards_thorough=16),
           J('drv_cblist_mt', 'asan', '', 6000, 60000, seed_offset=2, shards=8, shards_thorough=16),
           J('drv_fault', 'asan17-fault', '', 540, 9000, defs=['-DVF_CFG_MASK=0x03'], seed_offset=3, shards=4, shards_thorough=8),
           J('drv_fault', 'asan17-fault', '', 540, 9000, defs=['-DVF_CFG_MASK=0x0c'], seed_offset=3, shards=4, shards_thorough=8)],
@@ -243,10 +245,12 @@ CHECKS['C11'] = dict(
          'and the result is compared with the model (pending non-empty or a processing call in progress => not empty); (b) concurrent: 1-2 observer threads spin on emptyQueue()/waitFor(0) while '
          'producers enqueue and consumers run process/processOne/processIf/processUntil/takeEvent/clearEvents under the perturbing policy (EventQueue with std::list and OrderedQueueList, std::mutex and SpinLock, HeterEventQueue); every call and every ledger transition carries a tick from one global atomic clock; '
          'offline join: an observation "empty" [tc,tr] is a violation if an event whose enqueue returned before tc was fully consumed (end of its listener / start of the take or clear call) only after tr; '
+         '(c) the waitFor clause with real durations: events enqueued inside a long DisableQueueNotify scope, 2-3 threads polling with waitFor(3-7 ms); when the scope ends one waiter is notified and is slow to drain, the others reach their timeout with the events pending and no DisableQueueNotify left - a waitFor that returns false there (event enqueued before the call began, not dispatched before it returned, no DisableQueueNotify alive from 1 ms before the deadline on) is a violation; '
          'non-trivial: (a) as C05, (b) distinct lock-order hashes; the run reports how many observations had prior events',
     jobs=JS('drv_queue', 'asan', 'c11', 2100, 100000, MQ, shards=4)
          + [J('drv_queue_mt', 'plain', 'c11', 6000, 120000, seed_offset=3, shards=8, shards_thorough=16),
-            J('drv_queue_mt', 'tsan', 'c11', 600, 10000, seed_offset=4, shards=8, shards_thorough=16)],
+            J('drv_queue_mt', 'tsan', 'c11', 600, 10000, seed_offset=4, shards=8, shards_thorough=16),
+            J('drv_wait', 'plain', 'c11', 640, 12000, seed_offset=5, shards=8, shards_thorough=16)],
     assumptions=['consumption-complete ticks are taken at the earliest moment the statement allows, so clock placement can hide but never invent a violation'],
     technique='online monitor (observer = listener) + offline history checker over tick-stamped observations and per-event ledger (observer = other thread), schedule perturbation, TSan',
     level_text='Exploration: millions of emptiness observations per thorough run, joined with the event ledger by logical time.',
@@ -447,7 +451,7 @@ CHECKS['C20'] = dict(
     timeout_quick=1500,
 )
 
-HOOK_COMMITS = ['104b3fd', '2c7a501', '6ad2faa', 'f317eda']
+HOOK_COMMITS = ['104b3fd', '2c7a501', '6ad2faa', 'f317eda', '2616476']
 
 NOT_APPLICABLE = {}
 for _i in range(1, 21):
